@@ -709,7 +709,12 @@ ApplySlabLen(st, e) ==
   IF ~Has(st.actors, e.aid) THEN R(st, {}) ELSE
   LET a == st.actors[e.aid] IN
   R(st, B(e.ready /\ a.s = "ready" /\ e.len # Cardinality(a.slab), "C04",
-          "ActorOwnSlab does not contain exactly the not-yet-terminated children"))
+          "ActorOwnSlab does not contain exactly the not-yet-terminated children")
+        \cup B(e.ready /\ "iter" \in DOMAIN e /\ (e.iter # e.len \/ e.empty # (e.len = 0)), "C04",
+                "ActorOwnSlab: len(), is_empty() and iteration disagree")
+        \cup B(e.ready /\ a.s = "ready" /\ "zombies" \in DOMAIN e
+                  /\ e.zombies # Cardinality({k \in a.slab : AState(st, k) = "zombie"}), "C04",
+                "ActorOwnSlab holds other terminated children than those whose removal is still queued"))
 
 \* ---- Ret / Fwd
 ApplyMkRet(st, e) ==
